@@ -607,7 +607,8 @@ def SacramentoNoSpread (p _st _s : List ℝ) : Prop :=
     p = [lzpk, lzsk, uzk, uztwm, uzfwm, lztwm, lzfsm, lzfpm, pfree, rexp, zperc, side, ssout, pctim, adimp, sarva, rserv,
       uh1, 0, 0, 0, 0] ∧ uh1 ≠ 0 ∧ (1.0 : ℝ) + side ≠ 0
 
-/-- Full statement (FALSE for the model and the code; known finding KF-C06-Sacramento-uh-buffer): `HotStart Sacramento.model`.
+/-- Full statement (FALSE for the model and the code; known finding KF-C06-Sacramento-uh-buffer; counter-example
+`hotstart_Sacramento_counterexample` below): `HotStart Sacramento.model`.
 The unit-hydrograph delay buffer `qq` (the surface flow of the previous four steps still to be routed) is a local of the
 kernel, zero at the start of every call and not in the state row: the flow in transit at a split point is lost.
 Proved (ℝ): hot-start continuity when the unit hydrograph does not spread the flow over steps (uh2 = … = uh5 = 0), for
@@ -774,5 +775,112 @@ theorem hotstart_InstreamDissolvedNutrientDecay_counterexample :
     rw [← Real.exp_zero]; exact Real.exp_lt_exp.mpr (by norm_num)
   linarith [e.2]
 end Dissolved
+
+/-! ### Sacramento: counter-example (ℝ) -/
+section SacramentoCounter
+open OW.C12
+set_option maxRecDepth 4000
+attribute [-simp] OW.RealNum.ofNat_eq
+
+/-- parameters of the counter-example: lzpk lzsk uzk uztwm uzfwm lztwm lzfsm lzfpm pfree rexp zperc side ssout pctim adimp
+sarva rserv uh1..uh5: half of the area impervious, unit hydrograph (1/2, 1/2, 0, 0, 0) -/
+noncomputable def sacP : Sacramento.Params ℝ :=
+  ⟨1 / 100, 1 / 10, 3 / 10, 50, 40, 130, 25, 60, 1 / 10, 1, 40, 0, 0, 1 / 2, 0, 0, 0, 1, 1, 0, 0, 0⟩
+
+noncomputable def sacC : Sacramento.Consts ℝ := { dro := [1 / 2, 1 / 2, 0, 0, 0], saved := 0, alzfsm := 25, alzfpm := 60, pbase := 31 / 10 }
+
+theorem sac_iiBody_eval (w : ℝ) :
+    ∃ tg, Sacramento.iiBody sacP sacC w (12 / 17) 1 0 ⟨0, 0, 0, 0, w, 0, 0, 0, 1, []⟩ = ⟨0, 0, 0, 0, w, 0, 0, 0, 1, tg⟩ := by
+  unfold Sacramento.iiBody
+  simp only [sacP, sacC]
+  realnum
+  norm_num
+  have hfl : Num.toInt (Num.floor (0:ℝ)) = 0 := by
+    show (if (0:ℝ) ≤ ((⌊(0:ℝ)⌋:ℤ):ℝ) then ⌊((⌊(0:ℝ)⌋:ℤ):ℝ)⌋ else ⌈((⌊(0:ℝ)⌋:ℤ):ℝ)⌉) = 0
+    simp
+  have hof : (Num.ofInt (0 + 1) : ℝ) = 1 := by show (((0 + 1 : ℤ)) : ℝ) = 1; norm_num
+  simp only [hfl, hof, if_true, Int.toNat_one, Int.zero_add, Sacramento.incLoop, Sacramento.incBody]
+  realnum
+  norm_num
+
+
+/-- one step of the counter-example: upper-zone tension water `u` (far from full), everything else empty, 2 mm of rain,
+no evaporation: 1 mm runs off the impervious half; `q1` is the flow of the previous step still in the buffer -/
+theorem sac_step_eval (u x0 q1 : ℝ) (hu : u = 0 ∨ u = 2) (hq : q1 = 0 ∨ q1 = 1) :
+    ∃ tg, Sacramento.step sacP (Sacramento.consts sacP) ⟨u, 0, 0, 0, 0, u, 0, 0, [x0, q1, 0, 0, 0]⟩ (2, 0) =
+      (⟨u + 2, 0, 0, 0, 0, u + 2, 0, 0, [1, 1, q1, 0, 0]⟩,
+       ⟨0, 1 / 2 + q1 / 2, 1, 1 / 2 + q1 / 2, 0, 0, 0, 0, 0, 0, 0, tg⟩) := by
+  obtain ⟨tg0, h0⟩ := sac_iiBody_eval (u + 2)
+  simp only [sacP, sacC] at h0
+  unfold Sacramento.step
+  simp only [sacP, Sacramento.consts, Sacramento.makeUnitHydrograph]
+  realnum
+  rcases hu with rfl | rfl <;> rcases hq with rfl | rfl <;> norm_num <;> norm_num at h0 <;> simp only [h0] <;>
+    simp only [Sacramento.channel, Sacramento.convolve, List.zipWith, List.foldl, List.tail, List.dropLast] <;>
+    realnum <;> norm_num
+
+/-- the parameter column of the counter-example -/
+noncomputable def sacCol : List ℝ := [1 / 100, 1 / 10, 3 / 10, 50, 40, 130, 25, 60, 1 / 10, 1, 40, 0, 0, 1 / 2, 0, 0, 0, 1, 1, 0, 0, 0]
+
+/-- a state of the counter-example, with `qq` the unit-hydrograph buffer -/
+noncomputable def sacSt (u : ℝ) (qq : List ℝ) : Sacramento.State ℝ := ⟨u, 0, 0, 0, 0, u, 0, 0, qq⟩
+
+theorem sac_run_eq (u : ℝ) (rain pet : List ℝ) :
+    ∃ tg, (Sacramento.model (α := ℝ)).run sacCol [rain, pet] [u, 0, 0, 0, 0, u] =
+      .ok { outputs := [(Sacramento.run sacP (sacSt u [0, 0, 0, 0, 0]) (rain.zip pet)).2.map (·.actualET),
+                        (Sacramento.run sacP (sacSt u [0, 0, 0, 0, 0]) (rain.zip pet)).2.map (·.runoff),
+                        (Sacramento.run sacP (sacSt u [0, 0, 0, 0, 0]) (rain.zip pet)).2.map (·.imperviousRunoff),
+                        (Sacramento.run sacP (sacSt u [0, 0, 0, 0, 0]) (rain.zip pet)).2.map (·.surfaceRunoff),
+                        (Sacramento.run sacP (sacSt u [0, 0, 0, 0, 0]) (rain.zip pet)).2.map (·.baseflow)],
+            states := [(Sacramento.run sacP (sacSt u [0, 0, 0, 0, 0]) (rain.zip pet)).1.uztwc,
+                       (Sacramento.run sacP (sacSt u [0, 0, 0, 0, 0]) (rain.zip pet)).1.uzfwc,
+                       (Sacramento.run sacP (sacSt u [0, 0, 0, 0, 0]) (rain.zip pet)).1.lztwc,
+                       (Sacramento.run sacP (sacSt u [0, 0, 0, 0, 0]) (rain.zip pet)).1.lzfpc,
+                       (Sacramento.run sacP (sacSt u [0, 0, 0, 0, 0]) (rain.zip pet)).1.lzfsc,
+                       (Sacramento.run sacP (sacSt u [0, 0, 0, 0, 0]) (rain.zip pet)).1.adimc],
+            tags := tg } := by
+  have e : (⟨u, 0, 0, 0, 0, u, (0:ℝ) * (1.0 + 0), (0:ℝ) * (1.0 + 0), zeros 5⟩ : Sacramento.State ℝ) = sacSt u [0, 0, 0, 0, 0] := by
+    simp only [sacSt, zeros, List.replicate, zero_mul]; rfl
+  unfold Sacramento.model sacCol
+  simp only
+  realnum
+  rw [e]
+  exact ⟨_, rfl⟩
+
+/-- **Counter-example** (known finding KF-C06-Sacramento-uh-buffer), ℝ: half of the catchment impervious, unit hydrograph
+(1/2, 1/2), 2 mm of rain on each of two days, all stores empty. Day 1 routes half of the impervious runoff (0.5 mm) and
+keeps the other half in the buffer. Uninterrupted run, day 2: 0.5 + 0.5 = 1 mm. Split run, day 2: the buffer starts
+empty again, 0.5 mm — the water in transit at the split point is lost. -/
+theorem hotstart_Sacramento_counterexample : ¬ HotStart (Sacramento.model (α := ℝ)) := by
+  intro h
+  obtain ⟨t1, h1⟩ := sac_run_eq 0 [2] [0]
+  obtain ⟨tw, hw⟩ := sac_run_eq 0 [2, 2] [0, 0]
+  obtain ⟨ga, ea⟩ := sac_step_eval 0 0 0 (Or.inl rfl) (Or.inl rfl)
+  obtain ⟨gb, eb⟩ := sac_step_eval 2 0 0 (Or.inr rfl) (Or.inl rfl)
+  obtain ⟨gc, ec⟩ := sac_step_eval 2 1 1 (Or.inr rfl) (Or.inr rfl)
+  have ra : Sacramento.run sacP (sacSt 0 [0, 0, 0, 0, 0]) [(2, 0)] = (sacSt 2 [1, 1, 0, 0, 0], [⟨0, 1 / 2 + 0 / 2, 1, 1 / 2 + 0 / 2, 0, 0, 0, 0, 0, 0, 0, ga⟩]) := by
+    simp only [Sacramento.run, scan, sacSt, ea]; norm_num
+  have rb : Sacramento.run sacP (sacSt 2 [0, 0, 0, 0, 0]) [(2, 0)] = (sacSt (2 + 2) [1, 1, 0, 0, 0], [⟨0, 1 / 2 + 0 / 2, 1, 1 / 2 + 0 / 2, 0, 0, 0, 0, 0, 0, 0, gb⟩]) := by
+    simp only [Sacramento.run, scan, sacSt, eb]
+  have rw' : Sacramento.run sacP (sacSt 0 [0, 0, 0, 0, 0]) [(2, 0), (2, 0)] = (sacSt (2 + 2) [1, 1, 1, 0, 0],
+      [⟨0, 1 / 2 + 0 / 2, 1, 1 / 2 + 0 / 2, 0, 0, 0, 0, 0, 0, 0, ga⟩, ⟨0, 1 / 2 + 1 / 2, 1, 1 / 2 + 1 / 2, 0, 0, 0, 0, 0, 0, 0, gc⟩]) := by
+    simp only [Sacramento.run, scan, sacSt, ea]
+    norm_num
+    simp only [ec]
+    norm_num
+  obtain ⟨t2, h2⟩ := sac_run_eq 2 [2] [0]
+  simp only [List.zip_cons_cons, List.zip_nil_right, ra, rb, rw'] at h1 h2 hw
+  simp only [List.map_cons, List.map_nil, sacSt] at h1 h2 hw
+  obtain ⟨o, ho, hout, _⟩ := h sacCol [[2], [0]] [[2], [0]] [0, 0, 0, 0, 0, 0] 1 1 _ _ rfl
+    (by intro s hs; simp at hs; rcases hs with rfl | rfl <;> rfl)
+    (by intro s hs; simp at hs; rcases hs with rfl | rfl <;> rfl) h1 h2
+  simp only [catSeries, List.zipWith_cons_cons, List.zipWith_nil_right, List.cons_append, List.nil_append] at ho hout
+  rw [hw] at ho
+  simp only [Except.ok.injEq] at ho
+  subst ho
+  simp only [List.cons.injEq, and_true] at hout
+  have := hout.2.1.2
+  norm_num at this
+end SacramentoCounter
 
 end OW.Props.C06
